@@ -1,0 +1,154 @@
+// Copyright 2021-present The Atlas Authors. All rights reserved.
+// This source code is licensed under the Apache 2.0 license found
+// in the LICENSE file in the root directory of this source tree.
+
+//go:build verif
+
+package main
+
+// Verification hook (compiled only with the build tag "verif"). It registers the URL schemes
+// "verifmysql://" and "verifpg://": connection-less clients whose driver is the real MySQL /
+// PostgreSQL differ and planner, and whose inspector returns a fixed schema built in memory:
+//
+//	verifpg://fixture/<schema>?variant=<1|2>   a client bound to the schema <schema>
+//	verifpg://fixture/?variant=<1|2>           a client bound to the realm (schemas <a> and <a>_2; a from ?name=)
+//
+// The commands that only read a database (schema inspect, schema diff) can then be run for these
+// dialects without a server. Nothing can be executed on such a client.
+
+import (
+	"context"
+	"database/sql"
+	"database/sql/driver"
+	"errors"
+	"net/url"
+	"strings"
+	"time"
+
+	"ariga.io/atlas/sql/migrate"
+	"ariga.io/atlas/sql/mysql"
+	"ariga.io/atlas/sql/postgres"
+	"ariga.io/atlas/sql/schema"
+	"ariga.io/atlas/sql/sqlclient"
+)
+
+type (
+	fixtureConnector struct{}
+	fixtureDriver    struct {
+		schema.Differ
+		migrate.PlanApplier
+		dialect, scope, name, variant string
+	}
+)
+
+var errFixture = errors.New("verif fixture: there is no database behind this client")
+
+func (fixtureConnector) Connect(context.Context) (driver.Conn, error) { return nil, errFixture }
+func (fixtureConnector) Driver() driver.Driver                        { return nil }
+
+func (*fixtureDriver) QueryContext(context.Context, string, ...any) (*sql.Rows, error) {
+	return nil, errFixture
+}
+func (*fixtureDriver) ExecContext(context.Context, string, ...any) (sql.Result, error) {
+	return nil, errFixture
+}
+func (*fixtureDriver) ApplyChanges(context.Context, []schema.Change, ...migrate.PlanOption) error {
+	return errFixture
+}
+func (*fixtureDriver) Lock(context.Context, string, time.Duration) (schema.UnlockFunc, error) {
+	return func() error { return nil }, nil
+}
+func (*fixtureDriver) Snapshot(context.Context) (migrate.RestoreFunc, error) {
+	return func(context.Context) error { return nil }, nil
+}
+func (*fixtureDriver) CheckClean(context.Context, *migrate.TableIdent) error { return nil }
+
+// table builds one fixture table.
+func (d *fixtureDriver) tables(s *schema.Schema) {
+	ity, tty := "int", schema.Type(&schema.StringType{T: "varchar", Size: 255})
+	if d.dialect == "postgres" {
+		ity, tty = "integer", &schema.StringType{T: "text"}
+	}
+	mk := func(name string) *schema.Table {
+		t := schema.NewTable(name).SetSchema(s)
+		id, ref := schema.NewIntColumn("id", ity), schema.NewNullIntColumn("ref", ity)
+		t.AddColumns(id, ref, schema.NewColumn("name").SetType(tty).SetNull(true))
+		t.SetPrimaryKey(schema.NewPrimaryKey(id))
+		t.AddIndexes(schema.NewIndex("ix_" + name).AddColumns(ref))
+		t.SetComment("comment on " + name)
+		s.AddTables(t)
+		return t
+	}
+	a, b := mk("TBLA"), mk("TBLB")
+	a.AddForeignKeys(schema.NewForeignKey("fk_a_b").SetTable(a).AddColumns(a.Columns[1]).SetRefTable(b).AddRefColumns(b.Columns[0]).SetOnDelete(schema.Cascade))
+	if d.dialect == "postgres" {
+		en := &schema.EnumType{T: "en_status", Values: []string{"on", "off"}, Schema: s}
+		s.AddObjects(en)
+		a.AddColumns(schema.NewColumn("st").SetType(en))
+	}
+	if d.variant == "2" {
+		c := mk("TBLC")
+		c.AddForeignKeys(schema.NewForeignKey("fk_c_a").SetTable(c).AddColumns(c.Columns[1]).SetRefTable(a).AddRefColumns(a.Columns[0]))
+		a.AddColumns(schema.NewNullIntColumn("added", ity))
+		a.AddIndexes(schema.NewUniqueIndex("ix_added").AddColumns(a.Columns[len(a.Columns)-1]))
+		b.Indexes = nil
+		b.Columns[2].SetNull(false)
+	}
+}
+
+func (d *fixtureDriver) realm() *schema.Realm {
+	names := []string{d.scope}
+	if d.scope == "" {
+		names = []string{d.name, d.name + "_2"}
+	}
+	r := schema.NewRealm()
+	for _, n := range names {
+		s := schema.New(n)
+		d.tables(s)
+		r.AddSchemas(s)
+	}
+	return r
+}
+
+func (d *fixtureDriver) InspectRealm(context.Context, *schema.InspectRealmOption) (*schema.Realm, error) {
+	return d.realm(), nil
+}
+
+func (d *fixtureDriver) InspectSchema(_ context.Context, name string, _ *schema.InspectOptions) (*schema.Schema, error) {
+	r := d.realm()
+	if name == "" {
+		return r.Schemas[0], nil
+	}
+	s, ok := r.Schema(name)
+	if !ok {
+		return nil, &schema.NotExistError{Err: errors.New("verif fixture: schema " + name + " was not found")}
+	}
+	return s, nil
+}
+
+func init() {
+	for scheme, dialect := range map[string]string{"verifmysql": "mysql", "verifpg": "postgres"} {
+		dialect := dialect
+		opts := []sqlclient.RegisterOption{sqlclient.RegisterCodec(mysql.MarshalHCL, mysql.EvalHCL)}
+		if dialect == "postgres" {
+			opts = []sqlclient.RegisterOption{sqlclient.RegisterCodec(postgres.MarshalHCL, postgres.EvalHCL)}
+		}
+		sqlclient.Register(scheme, sqlclient.OpenerFunc(func(_ context.Context, u *url.URL) (*sqlclient.Client, error) {
+			d := &fixtureDriver{Differ: mysql.DefaultDiff, PlanApplier: mysql.DefaultPlan, dialect: dialect}
+			if dialect == "postgres" {
+				d.Differ, d.PlanApplier = postgres.DefaultDiff, postgres.DefaultPlan
+			}
+			d.scope = strings.Trim(u.Path, "/")
+			d.variant = u.Query().Get("variant")
+			if d.name = u.Query().Get("name"); d.name == "" {
+				d.name = "fixture"
+			}
+			return &sqlclient.Client{
+				Name:   dialect,
+				DB:     sql.OpenDB(fixtureConnector{}),
+				URL:    &sqlclient.URL{URL: u, DSN: u.String(), Schema: d.scope},
+				Driver: d,
+			}, nil
+		}), opts...)
+	}
+}
